@@ -94,6 +94,7 @@ def run(ctx, chk):
         # the writer loop runs in the thread that owns the ShmWriter mailbox: C15.N2 pairing, re-evaluated
         from . import C15
         sub = type(chk)('C01', LEVEL, chk.tier)
+        sub._nested = True
         C15.run(ctx, sub)
         for o in sub.obs:
             if o['key'].startswith(('spawn:mailbox-matches-id', 'spawn:id-matches-worker', 'spawn:context-moved-to-worker')):
@@ -193,6 +194,7 @@ def run(ctx, chk):
     for pid, rules in IMPORTS.items():
         mod = importlib.import_module('cbv.rules.%s' % pid)
         sub = type(chk)('C01', LEVEL, chk.tier)
+        sub._nested = True
         getattr(mod, 'run_rules', mod.run)(ctx, sub)
         n = 0
         for o in sub.obs:
